@@ -1131,13 +1131,12 @@ def Emit(inp, tab, ev):
         else:
             w = PaperWallet.from_bip39_seed_hex(inp["seed"], testnet=test)
         if inp.get("companion"):
-            # somebody else looks at the same master node through a wallet of the OTHER network (and through a copy of
-            # this wallet): views do not change what this wallet emits
+            # somebody else looks at the same master node through a wallet of the OTHER network: a second view does
+            # not change what this wallet emits
             from btc_hd_wallet import BaseWallet
             try:
                 other = BaseWallet(master=w.master, testnet=not w.testnet)
                 other.p2wpkh_address(other.master)
-                PaperWallet(master=w.master, testnet=w.testnet)
             except Exception:
                 pass
         if what == "generate":
